@@ -18,6 +18,9 @@ def _is_place(d):
 def _renumber(x, off_l):
     """Shift every local mentioned in a (deep-copied) MIR fragment by off_l."""
     if isinstance(x, dict):
+        if x.get("k") in ("slive", "sdead") and "sl" in x:
+            x["sl"] += off_l
+            return
         if _is_place(x):
             x["l"] += off_l
             for e in x["p"]:
